@@ -35,6 +35,18 @@ def parse_simple(g):
         ys.append(y)
     return ends, list(zip(xs, ys)), flags
 
+def parse_components(g):
+    """glyph indices of a composite glyph's components (OpenType glyf spec: flags, glyphIndex, arguments, optional transform)"""
+    pos = 10; out = []
+    while True:
+        flags, gi = struct.unpack(">HH", g[pos:pos + 4]); pos += 4; out.append(gi)
+        pos += 4 if flags & 0x0001 else 2
+        if flags & 0x0008: pos += 2
+        elif flags & 0x0040: pos += 4
+        elif flags & 0x0080: pos += 8
+        if not flags & 0x0020: break
+    return out
+
 def check_truetype(tables, composite_bounds=None):
     """tables: {tag(bytes): bytes}. composite_bounds: optional {gid: (xMin,yMin,xMax,yMax)} recomputed by
     the caller for composite glyphs.  Returns list of problems."""
@@ -91,6 +103,38 @@ def check_truetype(tables, composite_bounds=None):
         mp, mc = struct.unpack(">HH", maxp[6:10])
         if mp != maxPoints: P.append("maxp.maxPoints %d != %d" % (mp, maxPoints))
         if mc != maxContours: P.append("maxp.maxContours %d != %d" % (mc, maxContours))
+    if len(maxp) >= 32:
+        # composite statistics: flatten every composite glyph (points, contours of its simple leaves), count its components, measure nesting
+        memo = {}
+        def stats(gid, seen=()):
+            if gid in memo: return memo[gid]
+            if gid in seen or gid >= len(offs) - 1: return (0, 0, 0)
+            g = glyf[offs[gid]:offs[gid + 1]]
+            if len(g) < 10: r = (0, 0, 0)
+            else:
+                nc = struct.unpack(">h", g[:2])[0]
+                if nc >= 0:
+                    try: ends, pts, _ = parse_simple(g) if nc > 0 else ([], [], [])
+                    except Exception: ends, pts = [], []
+                    r = (len(pts), nc, 0)
+                else:
+                    try: comps = parse_components(g)
+                    except Exception: comps = []
+                    sub = [stats(c, seen + (gid,)) for c in comps]
+                    r = (sum(x[0] for x in sub), sum(x[1] for x in sub), 1 + max([x[2] for x in sub] or [0]))
+            memo[gid] = r; return r
+        cpts = ccont = celem = cdepth = 0
+        for gid in range(min(n, len(offs) - 1)):
+            g = glyf[offs[gid]:offs[gid + 1]]
+            if len(g) >= 10 and struct.unpack(">h", g[:2])[0] < 0:
+                st = stats(gid)
+                try: ne = len(parse_components(g))
+                except Exception: continue
+                cpts = max(cpts, st[0]); ccont = max(ccont, st[1]); celem = max(celem, ne); cdepth = max(cdepth, st[2])
+        mcp, mcc = struct.unpack(">HH", maxp[10:14]); mce, mcd = struct.unpack(">HH", maxp[28:32])
+        if (mcp, mcc) != (cpts, ccont): P.append("maxp composite points/contours %r != recomputed %r" % ((mcp, mcc), (cpts, ccont)))
+        if mce != celem: P.append("maxp.maxComponentElements %d != %d" % (mce, celem))
+        if mcd != cdepth: P.append("maxp.maxComponentDepth %d != %d" % (mcd, cdepth))
     if b"hhea" in tables and b"hmtx" in tables:
         P += check_hmetrics(tables[b"hhea"], tables[b"hmtx"], n, boxes, "h")
     return P
